@@ -41,6 +41,10 @@ FILES6 = [
 ]
 
 
+ONCE_TREE = {"once.mac": ".once\n.byte 21\n.byte 22\n", "plain.mac": ".byte 31\n", "via.mac": ".byte 41\n.include \"once.mac\"\n.byte 42\n",
+             "sub/deep.mac": ".byte 51\n.include \"../once.mac\"\n.byte 52\n"}
+
+
 def bound(tier):
     return "repeat bodies of <= %d statements (43-statement alphabet) x n in %s x 2 count spellings x 2 start parities x 3 link regimes; 258 file tuples; insert lengths %s; .end/.once families complete" % (
         3 if tier == "thorough" else 2, NS, "0..300" if tier == "thorough" else "0..40,255,256,300")
@@ -63,6 +67,7 @@ def cases(tier):
         yield {"k": "insert", "lens": lens[i:i + 16]}
     yield {"k": "end"}
     yield {"k": "once"}
+    yield {"k": "insert-dirs"}
 
 
 def wrap(body_text, reg, odd, defs_first, extra_defs=""):
@@ -256,6 +261,63 @@ def check(case, r, tier):
                 if not good:
                     r.violation("once", ".once: a file must contribute only the first time it is included (%s)" % "".join(combo),
                                 {"k": "once-prog", "text": text}, want.hex(), out.brief())
+                if n > 2:
+                    continue
+                # the guarded file is also one of the linked files: it still contributes once per assembly
+                want_after = b""
+                seen2 = True
+                for e in combo:
+                    if e in "Ooq":
+                        pass
+                    elif e == "V":
+                        want_after += b"\x21\x22"
+                    elif e == "D":
+                        want_after += b"\x29\x2a"
+                    else:
+                        want_after += elems[e][1]
+                for tag, files, w in (("linked-before", [("once.mac", once), ("m.mac", text)], b"\x11\x12" + want_after),
+                                      ("linked-after", [("m.mac", text), ("once.mac", once)], want + (b"" if seen else b"\x11\x12")),
+                                      ("linked-twice", [("once.mac", once), ("m.mac", text), ("once.mac", once)], b"\x11\x12" + want_after)):
+                    out = driver.assemble(files, tree=tree)
+                    r.states += 1
+                    good = out.status == "ok" and out.code == w
+                    r.ran(out.cls() if not good else "ok", key=("once", combo, tag))
+                    if not good:
+                        r.violation("once:" + tag, ".once: a guarded file that is also a linked file contributes once per assembly (%s, %s)" % ("".join(combo), tag),
+                                    {"k": "once-prog", "files": [list(f) for f in files], "want": w.hex()}, w.hex(), out.brief())
         return
     if k == "once-prog":
+        out = driver.assemble([tuple(f) for f in case["files"]] if "files" in case else [("m.mac", case["text"])], tree=case.get("tree") or ONCE_TREE)
+        r.ran(out.cls(), key=None)
+        if "want" in case and not (out.status == "ok" and out.code == bytes.fromhex(case["want"])):
+            r.violation("once:replay", "recorded program", case, case["want"], out.brief())
+        return
+    if k == "insert-dirs":
+        # the path of an inserted file is relative to the file that holds the directive: the same spelling in two directories names
+        # two files (and 'insert_file' is the same bytes written as .byte data)
+        A, Bb, Cc = bytes([1, 2, 3]), bytes([0o21, 0o22, 0o23, 0o24, 0o25]), bytes([0o31])
+        tree = {"t.bin": A, "sub/t.bin": Bb, "sub/deep/t.bin": Cc, "sub/inc.mac": "insert_file \"t.bin\"\n", "sub/deep/inc.mac": "insert_file \"t.bin\"\n",
+                "sub/up.mac": "insert_file \"../t.bin\"\n", "sub/both.mac": "insert_file \"t.bin\"\n.include \"deep/inc.mac\"\ninsert_file \"t.bin\"\n"}
+        elems = {"m": ("insert_file \"t.bin\"", A), "s": (".include \"sub/inc.mac\"", Bb), "d": (".include \"sub/deep/inc.mac\"", Cc), "u": (".include \"sub/up.mac\"", A),
+                 "b": (".include \"sub/both.mac\"", Bb + Cc + Bb), "x": ("insert_file \"sub/t.bin\"", Bb), "r": (".repeat 2 { insert_file \"t.bin\" }", A + A)}
+        for n in (1, 2, 3):
+            for combo in itertools.product("msdubxr", repeat=n):
+                text = "\n".join(elems[e][0] for e in combo) + "\n"
+                want = b"".join(elems[e][1] for e in combo)
+                out = driver.assemble([("m.mac", text)], tree=tree)
+                r.states += 1
+                r.trans += n
+                good = out.status == "ok" and out.code == want
+                r.ran("ok" if good else out.cls(), key=("insert-dirs", combo))
+                if not good:
+                    r.violation("insert-file:relative-to-its-own-file", "insert_file \"t.bin\" in files of different directories (%s)" % "".join(combo),
+                                {"k": "once-prog", "text": text, "tree": {k2: (v if isinstance(v, str) else None) for k2, v in tree.items() if isinstance(v, str)}, "want": want.hex()}, want.hex(), out.brief())
+        # two linked files in different directories
+        for order in ((("m.mac", "insert_file \"t.bin\"\n"), ("sub/n.mac", "insert_file \"t.bin\"\n")), (("sub/n.mac", "insert_file \"t.bin\"\n"), ("m.mac", "insert_file \"t.bin\"\n"))):
+            want = b"".join(A if f[0] == "m.mac" else Bb for f in order)
+            out = driver.assemble(list(order), tree=tree)
+            good = out.status == "ok" and out.code == want
+            r.ran("ok" if good else out.cls(), key=("insert-dirs-linked", order[0][0]))
+            if not good:
+                r.violation("insert-file:relative-to-its-own-file", "insert_file \"t.bin\" in two linked files of different directories", {"k": "insert-dirs"}, want.hex(), out.brief())
         return
